@@ -17,7 +17,8 @@ RULE = ("rule sets = 1..4 plain rules (named and/or with id), 0..3 correlation r
         "depth 3, generate on/off), unrelated rules interleaved, optionally a missing reference; x permutations of the "
         "documents (all for <= 5 documents at quick / <= 6 at thorough, sampled beyond) x load paths {from_yaml, from_dicts, "
         "merge, load_ruleset}; distinct = distinct (rule set, permutation, path); non-trivial = at least one reference"
-        "; correlation rules with extended conditions (references from the condition text only); load path 'remerge' (the collection holding the correlation rules was merged once before with other rule objects)")
+        "; correlation rules with extended conditions (references from the condition text only); load path 'remerge' (the collection holding the correlation rules was merged once before with other rule objects)"
+        "; load path 'collect' (error collection on, every correlation rule carries an unrelated collected error)")
 ASSUMPTIONS = [
     "rule names and ids are unique within a rule set (a later duplicate replaces an earlier one in the implementation's tables: modelled, not generated)",
     "the test backend's correlation templates are used to convert correlation rules",
